@@ -10,6 +10,7 @@
      levinson_pd_iff_thm          ... <=> PD r p
      levinson_returns_iff_pd_thm  r0 > 0:  LEVINSON(r, p) with allow_singularity=False returns  <=>  PD r p
      levinson_not_pd_raises_thm   r0 > 0 and r not positive definite  =>  "singular matrix" is raised
+     levinson_allow_returns_thm   allow_singularity=True: the recursion returns for every r and every admissible order
    Abstract ordered *-field, axiom-free. *)
 Require Import Spectrum.Theory.Ops Spectrum.Theory.Sum Spectrum.Theory.Vec Spectrum.Theory.Order
                Spectrum.Model.Levinson Spectrum.Proofs.LevinsonTheory Spectrum.Proofs.HermtoepTheory Spectrum.Proofs.YulePD.
@@ -250,5 +251,18 @@ Theorem levinson_not_pd_raises_thm (r : list F) (p : nat) :
 Proof.
   intros Hr Hp H0 HN. destruct (levinson r p false) as [[[a P] k]|] eqn:E; [|reflexivity].
   exfalso. apply HN. apply (levinson_returns_iff_pd_thm r p Hr Hp H0). exists a, P, k. exact E.
+Qed.
+
+(* ... "unless singularity is allowed": with allow_singularity=True the only failure is the order assertion *)
+Lemma lev_iter_allow (T : list F) P0 m : exists st, lev_iter T true P0 m = Some st.
+Proof.
+  induction m as [|m [st IH]]; [eexists; reflexivity|].
+  cbn [lev_iter]. rewrite IH. destruct st as [[A P] ks]. unfold lev_step. cbn [negb]. rewrite Bool.andb_false_r. eexists; reflexivity.
+Qed.
+Theorem levinson_allow_returns_thm (r : list F) (p : nat) : (p <= length r - 1)%nat ->
+  exists a P k, levinson r p true = Some (a, P, k).
+Proof.
+  intros Hp. unfold levinson. destruct (Nat.leb_spec p (length r - 1)); [|lia].
+  destruct (lev_iter_allow (tl r) (re (nthF r O)) p) as [[[a P] k] E]. exists a, P, k. exact E.
 Qed.
 End Conv.
